@@ -243,7 +243,8 @@ func c06NewDB(n int) *c06DB {
 }
 
 // roles: the partitions of {sender, recipient, coinbase} over the slots
-var c06Roles = [][3]int{{0, 1, 2}, {0, 0, 2}, {0, 1, 0}, {0, 1, 1}, {0, 0, 0}}
+// (tier parameter R takes a prefix; creations have no recipient: R=2 is complete for them)
+var c06Roles = [][3]int{{0, 1, 2}, {0, 1, 0}, {0, 0, 2}, {0, 1, 1}, {0, 0, 0}}
 
 // non-existence patterns (bit i = slot i missing), most interesting first
 var c06Missing = []int{0, 2, 4, 1, 6, 3, 5, 7}
